@@ -300,7 +300,8 @@ Qed.
 Lemma select_not_selectedcontent x :
   local_is x s_select = true -> local_is x s_selectedcontent = false.
 Proof.
-  destruct x; simpl; auto. intros H. apply str_eqb_eq in H. rewrite H. reflexivity.
+  destruct x; simpl; auto. intros H. apply andb_true_iff in H. destruct H as [_ H].
+  apply str_eqb_eq in H. rewrite H. apply andb_false_r.
 Qed.
 
 Lemma rc_clone_option_noop s n :
